@@ -35,9 +35,9 @@ pub mod verif
     pub fn assert_monitors(other_before : Slot)
     {
         let f = fs();
-        assert!(!f.m_c07_cache_misfiled, "[C07] a cache entry holds content other than the one it is named after");
+        assert!(!f.m_c07_cache_misfiled, "[C07][C11] after some mutation (= at some kill point) a cache entry holds content other than the one it is named after");
         assert!(!f.m_c08_overwrite, "[C08] a rename replaced a file holding different content");
-        assert!(!f.m_c08_lost, "[C08] content present before the step is neither at a target nor in the cache");
+        assert!(!f.m_c08_lost, "[C08][C11] after some mutation (= at some kill point) content present before the step is neither at a target nor in the cache");
         assert!(!f.m_created_by_ruler, "[C08][C09] ruler created a file or changed permissions itself");
         assert!(!f.m_c09_out_of_scope, "[C09] a mutating call named a path that is neither an in-scope target nor a cache entry");
         assert!(f.ws[2] == other_before, "[C09] an out-of-scope file changed");
@@ -678,7 +678,9 @@ pub mod verif
         let spawn_error = raw.flag();
         let omit0 = raw.flag();
         let omit1 = raw.flag();
+        let first_line_fails = raw.flag();
         fs().cmd.fail_code = fail_code;
+        fs().cmd.first_line_fails = first_line_fails;
         fs().cmd.spawn_error = spawn_error;
         fs().cmd.omit = [omit0, omit1 && ntargets == 2];
         let before = [fs().ws[0], fs().ws[1]];
@@ -691,13 +693,13 @@ pub mod verif
         {
             Ok(o) =>
             {
-                assert!(!fail_code && !spawn_error, "[C04] a failing command was taken for a success");
+                assert!(!fail_code && !spawn_error && !first_line_fails, "[C04] a command one of whose script lines exits non-zero (or cannot be started) was taken for a success");
                 std::mem::forget(o);
             },
             Err(WorkError::CommandExecutedButErrored) =>
             {
                 kani::cover!(true, "non-zero exit");
-                assert!(fail_code && !spawn_error, "[C04] non-zero exit reported for a command that did not exit non-zero");
+                assert!((fail_code || first_line_fails) && !spawn_error, "[C04] non-zero exit reported for a command that did not exit non-zero");
                 return;
             },
             Err(WorkError::CommandFailedToExecute(e)) =>
